@@ -134,6 +134,8 @@ pub struct Expect {
     pub doc: Option<XResp>,
     pub lost: Vec<(String, usize)>,
     pub consumed_http: usize,
+    /// expected reports for which the log holds no answer (never sent, or the log was cut short)
+    pub reports_without_answer: usize,
     pub forged_exchange: bool,
 }
 
@@ -191,9 +193,22 @@ pub fn walk_check(inp: &CheckInputs) -> Expect {
     }
     // one event report: consumes one HTTP answer
     macro_rules! report {
-        ($name:expr, $events:expr, $per_app:expr) => {{
+        ($name:expr, $events:expr, $per_app:expr) => {'rep: {
+            macro_rules! continue_after_missing {
+                () => {
+                    break 'rep
+                };
+            }
             let events: Vec<EventExpect> = $events;
-            let a = next_http!();
+            // a report the library never sent leaves no answer in the log: the walk goes on (the monitors see the
+            // expected report without a matching request); a log cut short mid-check is told apart by the caller
+            // (no result was delivered)
+            let Some(a) = http.next().copied() else {
+                e.reports_without_answer += 1;
+                e.requests.push(ReqExpect::Report { name: $name, events, per_app: $per_app, delivered: None });
+                continue_after_missing!();
+            };
+            e.consumed_http += 1;
             let delivered = match a {
                 HttpAnswer::Response { authentic: true, status, retry_after, .. } => {
                     poll = read_retry_after(retry_after);
